@@ -12,7 +12,7 @@
 (* This is the denotation C01, C06-C10, C17 and C18 appeal to; it is        *)
 (* independent of the compiler (it never sees inferred types).              *)
 (***************************************************************************)
-EXTENDS Integers, Sequences, FiniteSets, TLC, Json, IOUtils, SemCommon
+EXTENDS Integers, Sequences, FiniteSets, TLC, Json, IOUtils, Derive
 
 Progs == ndJsonDeserialize(IOEnv.PROGS)
 MaxSteps == IF "MAXSTEPS" \in DOMAIN IOEnv THEN atoi(IOEnv.MAXSTEPS) ELSE 20000
@@ -226,7 +226,7 @@ TraitDispatch(trait, m, vs, rest) ==
   ELSE Stop(VBad("no implementation " \o key \o "." \o m))
 
 \* ---------------------------------------------------------------- start evaluating an expression
-ArgsOf(e) == CASE e.k \in {"call", "ctor", "tcall", "dcall"} -> e.as
+ArgsOf(e) == CASE e.k \in {"call", "ctor", "tcall", "dcall", "derived"} -> e.as
                [] e.k \in {"tuple", "array"} -> e.es
                [] e.k = "struct" -> [i \in DOMAIN e.fs |-> e.fs[i].e]
                [] e.k = "callv" -> <<e.f>> \o e.as
@@ -250,7 +250,7 @@ StepE ==
        [] e.k = "field" -> /\ ctl' = E(e.e, env, tenv) /\ kont' = Push([f |-> "field", fld |-> e.f]) /\ Same
        [] e.k = "todyn" -> /\ ctl' = E(e.e, env, tenv) /\ kont' = Push([f |-> "todyn", trait |-> e.trait]) /\ Same
        [] e.k = "match" -> /\ ctl' = E(e.e, env, tenv) /\ kont' = Push([f |-> "match", arms |-> e.arms, env |-> env, tenv |-> tenv]) /\ Same
-       [] e.k \in {"call", "tuple", "array", "ctor", "struct", "tcall", "dcall", "callv"} ->
+       [] e.k \in {"call", "tuple", "array", "ctor", "struct", "tcall", "dcall", "callv", "derived"} ->
             LET es == ArgsOf(e) IN
             IF es = <<>> THEN /\ ctl' = [t |-> "apply", node |-> e, vs |-> <<>>, tenv |-> tenv] /\ UNCHANGED kont /\ Same
             ELSE /\ ctl' = E(es[1], env, tenv) /\ kont' = Push([f |-> "args", node |-> e, es |-> es, done |-> <<>>, env |-> env, tenv |-> tenv]) /\ Same
@@ -269,6 +269,10 @@ StepApply ==
      CASE e.k = "call" -> ApplyNamed(e.f, [i \in DOMAIN e.targs |-> Subst(e.targs[i], tenv)], vs, kont)
        [] e.k = "callv" -> ApplyValue(vs[1], Tail(vs), kont)
        [] e.k \in {"tcall", "dcall"} -> TraitDispatch(e.trait, e.m, vs, kont)
+       [] e.k = "derived" ->      \* to_string / to_json of a type that derives it: the rendering Derive.tla prescribes
+            IF vs[1].k \notin {"struct", "variant"} THEN Stop(VBad("derived method on a non-derived value"))
+            ELSE IF e.m = "to_json" THEN Ret(VStr(ToJsonV(vs[1], P.ftab, P.ntab)))
+            ELSE Ret(VStr(ToStringV(vs[1], P.ftab, P.ntab)))
        [] e.k = "tuple" -> Ret([k |-> "tuple", es |-> vs])
        [] e.k = "array" -> Ret([k |-> "array", es |-> vs])
        [] e.k = "ctor" -> Ret([k |-> "variant", ty |-> Subst(e.ty, tenv), variant |-> e.variant, as |-> vs])
